@@ -232,6 +232,9 @@ pub mod verif {
     pub mod constant_storage {
         pub use crate::constant_storage::*;
     }
+    pub mod timing {
+        pub use crate::timing::*;
+    }
 }
 
 #[deprecated = "renamed to `LoadError`"]
